@@ -68,6 +68,8 @@ type Scenario struct {
 	Expect  map[string]any        `json:"expect,omitempty"`
 	// Spans: per context name, what span the request context carries.  Default: a live (recording) span of its own.
 	Spans map[string]SpanSpec `json:"spans,omitempty"`
+	// Deadlines: per context name, a deadline in ticks of virtual time after the start of the scenario.
+	Deadlines map[string]int `json:"deadlines,omitempty"`
 }
 
 // SpanSpec: kind "live" | "remote" (valid remote parent set by a propagator, not recording) | "unsampled" (valid, not
@@ -791,10 +793,16 @@ func runScenario(t *testing.T, sc *Scenario, tr int, out *bufio.Writer) {
 				}
 			}
 			cctx, cancel := context.WithCancel(base)
+			if dl, ok := sc.Deadlines[cs.Ctx]; ok && dl > 0 {
+				var cancel2 context.CancelFunc
+				cctx, cancel2 = context.WithDeadline(cctx, r.t0.Add(time.Duration(dl)*tickDur))
+				_ = cancel2 // the outer cancel ends it too
+			}
 			ctxs[cs.Ctx] = cctx
 			cancels[cs.Ctx] = cancel
 		}
 	}
+	expired := map[string]bool{}
 
 	var wg sync.WaitGroup
 	call := func(c string) {
@@ -902,7 +910,39 @@ func runScenario(t *testing.T, sc *Scenario, tr int, out *bufio.Writer) {
 		r.mu.Lock()
 		r.ticking = true
 		r.mu.Unlock()
-		time.Sleep(time.Duration(d) * tickDur)
+		// A deadline that falls into this tick: time is taken to one millisecond before it, the expiry is recorded
+		// (with the time of the deadline itself), then the last millisecond passes - what goroutines do because of
+		// the expiry follows its record in the trace and carries the same time.
+		{
+			ms := int(tickDur / time.Millisecond)
+			to := from + d*ms
+			type dlx struct {
+				x  string
+				at int
+			}
+			var due []dlx
+			for x, dl := range sc.Deadlines {
+				if _, ok := ctxs[x]; ok && dl > 0 && !expired[x] && dl*ms > from && dl*ms <= to {
+					due = append(due, dlx{x, dl * ms})
+				}
+			}
+			sort.Slice(due, func(a, b int) bool { return due[a].at < due[b].at || (due[a].at == due[b].at && due[a].x < due[b].x) })
+			for _, q := range due {
+				if wait := q.at - 1 - r.now(); wait > 0 {
+					time.Sleep(time.Duration(wait) * time.Millisecond)
+					synctest.Wait()
+				}
+				expired[q.x] = true
+				r.log("Cancel", map[string]any{"x": q.x, "k": "deadline", "t": q.at})
+				if wait := q.at - r.now(); wait > 0 {
+					time.Sleep(time.Duration(wait) * time.Millisecond)
+					synctest.Wait()
+				}
+			}
+			if rest := to - r.now(); rest > 0 {
+				time.Sleep(time.Duration(rest) * time.Millisecond)
+			}
+		}
 		synctest.Wait()
 		r.mu.Lock()
 		r.ticking = false
